@@ -146,6 +146,18 @@ def tagEpochs {β : Type} (next : Nat → α → α) : α → Nat → List (List
   | _, _, [] => []
   | lr, e, bs :: rest => bs.map (fun b => (lr, b)) ++ tagEpochs next (next e lr) (e + 1) rest
 
+/-- the learning rate LEFT IN THE OPTIMIZER when `fit` returns (hardening round 4): the same epoch loop as `tagEpochs` — every epoch that
+was entered, also one cut short by a stop request (fewer batches, possibly none), is followed by one `scheduler.step()`
+(neural_state.py:629-630 sits after the batch loop, outside the `if self.stop_training: break` of the batches). -/
+def lrEnd {β : Type} (next : Nat → α → α) : α → Nat → List (List β) → α
+  | lr, _, [] => lr
+  | lr, e, _ :: rest => lrEnd next (next e lr) (e + 1) rest
+
+/-- number of `scheduler.step()` calls of a `fit` call that entered the given epochs (= `scheduler.last_epoch` afterwards) -/
+def schedSteps {β : Type} : List (List β) → Nat
+  | [] => 0
+  | _ :: rest => schedSteps rest + 1
+
 /-- no scheduler (`scheduler=None`) -/
 def noSched : Nat → α → α := fun _ lr => lr
 
